@@ -135,4 +135,7 @@ def method(interp, xs, name, args, kwargs):
         return xs
     if name == '__iter__':
         return models.SIter(xs, 0)
+    if name == 'append':
+        from . import texts
+        return texts.append(interp, xs, args[0])
     raise Unsupported('method %s on symbolic-length sequence' % name)
